@@ -411,7 +411,10 @@ static void check_rb(Cont* c) { (void)c; }
 static void check_str(Cont* c) {
   var o = c->obj;
   char* p = c_str(o);
-  size_t bs = arena_block_size(p);
+  /* the characters must lie in a live block of the String's own; where in that block they start is the implementation's business */
+  size_t bs = 0;
+  { void* st_ = NULL; size_t sz_ = 0; int state_ = 0;
+    if (arena_find(p, &st_, &sz_, &state_) && state_ == 1 && (char*)p < (char*)st_ + sz_) bs = (size_t)((char*)st_ + sz_ - (char*)p); }
   size_t ml = strlen(c->s);
   if (bs == 0) VIOL(c, "buffer-not-live", "c_str does not point at a live block after %s", g_lastop);
   /* NUL inside its own allocation */
